@@ -75,8 +75,11 @@ func hasCtx(m *MethodSpec, t *Ty) bool {
 
 // ctxName: a parameter name for a context; with the converter-level regex ^ctx in effect half of the
 // names rely on it, the others are declared by a context line / function comment.
-func (g *pgen) ctxName(c *ConvSpec, k int) (string, bool) {
-	if c.CtxRegex && g.r.Intn(2) == 0 {
+func (g *pgen) ctxName(c *ConvSpec, m *MethodSpec, forExtend bool, k int) (string, bool) {
+	// the regex in effect: the converter's, or - for the method's own parameters and for its map ... | FUNC and default
+	// FUNC functions, not for extend functions, which are parsed at converter level - the one written on the method
+	regex := c.CtxRegex || (m != nil && m.CtxRegex && !forExtend)
+	if regex && g.r.Intn(2) == 0 {
 		return fmt.Sprintf("ctx%d", k), false
 	}
 	return fmt.Sprintf("kx%d", k), true
@@ -86,7 +89,7 @@ func (g *pgen) addMethodCtx(c *ConvSpec, m *MethodSpec, t *Ty) {
 	if hasCtx(m, t) {
 		return
 	}
-	name, byLine := g.ctxName(c, len(m.Ctx))
+	name, byLine := g.ctxName(c, m, false, len(m.Ctx))
 	m.Ctx = append(m.Ctx, CtxParam{Name: name, T: t})
 	if byLine {
 		m.Lines = append(m.Lines, "context "+name)
@@ -116,7 +119,7 @@ func (g *pgen) newFunc(c *ConvSpec, m *MethodSpec, prefix string, src, tgt *Ty, 
 		if dup {
 			continue
 		}
-		name, byComment := g.ctxName(c, i)
+		name, byComment := g.ctxName(c, m, prefix != "MapF" && prefix != "Mk", i)
 		ctxs = append(ctxs, FnParam{Name: name, T: t, Role: 1, ByComment: byComment})
 		if m != nil && g.r.Intn(100) < 88 {
 			g.addMethodCtx(c, m, t)
@@ -215,6 +218,14 @@ func (g *pgen) decorate(c *ConvSpec) {
 			m.Lines = append(m.Lines, []string{"wrapErrors no", "wrapErrors no", "wrapErrors no", "wrapErrorsUsing example.org/m/werr"}[g.r.Intn(4)])
 		default:
 			m.Lines = append(m.Lines, []string{"wrapErrorsUsing example.org/m/werr", "wrapErrors"}[g.r.Intn(2)])
+		}
+	}
+	if !c.CtxRegex {
+		for _, m := range c.Methods {
+			if !m.Update && g.r.Intn(4) == 0 { // arg:context:regex written on the method only
+				m.CtxRegex = true
+				m.Lines = append(m.Lines, "arg:context:regex ^ctx")
+			}
 		}
 	}
 	var extLines []string
